@@ -21,6 +21,8 @@ CONSTANTS
   Ports,     \* configured passive ports
   UsePool,   \* TRUE: data_ports configured (Ports), FALSE: ephemeral ports
   Idle, WaitData, SockT,  \* timeouts in ms, 0 = off
+  LateDrop,  \* TRUE: the user manager's logout notification awaits, so USER forgets the previous login some time after its handler
+             \* started (FALSE: at once, as with the stock user manager)
   V6,        \* TRUE: the server listens on an IPv6 address (PASV cannot be answered: 503 and the session is ended)
   KF         \* set of known-finding slugs whose deviating behaviour is admitted (always {} for the design)
 
@@ -145,12 +147,12 @@ SendLine(s, t, v, a, x, n) ==
         /\ \/ r.h.v \in OvertakenVerbs /\ v \in OvertakingVerbs
            \/ r.h.v \in OvertakenVerbs /\ v = "user" \* USER while a path command is suspended in the backend
            \/ r.h.v = "pass" /\ v = "user"      \* USER again while the password is still being checked (a user manager that awaits)
-           \/ r.h.v = "user" /\ v \in {"user", "pwd", "type", "syst"}   \* ... or while the account is still being looked up
+           \/ r.h.v = "user" /\ v \in {"user", "pass", "pwd", "type", "syst"}   \* ... or while the account is still being looked up
            \/ r.h.v \in {"pasv", "epsv"} /\ v \in {"pasv", "epsv"}      \* a second passive command while the listener is being opened:
                                                                       \* it waits for that listener (one per session)
         \* USER forgets the previous login when its handler starts, not when it answers: a pending USER has done so already,
         \* an overtaking one has or has not by the time the overtaken handler resumes
-        /\ \E early \in (IF r.h.v = "user" THEN {TRUE} ELSE IF v = "user" THEN BOOLEAN ELSE {FALSE}) :
+        /\ \E early \in (IF r.h.v = "user" /\ ~LateDrop THEN {TRUE} ELSE IF "user" \in {v, r.h.v} THEN BOOLEAN ELSE {FALSE}) :
              LET r0 == IF early THEN [r EXCEPT !.user = "", !.logged = FALSE, !.rnfr = NoPath] ELSE r IN
              /\ Upd(s, [r0 EXCEPT !.h2 = [NoH EXCEPT !.v = v, !.a = a, !.x = x, !.n = n, !.c0 = r.cwd, !.u0 = r0.user, !.l0 = r0.logged], !.line = t, !.rest = 0])
              /\ uused' = IF early /\ r.user # "" THEN [uused EXCEPT ![r.user] = @ - 1] ELSE uused
@@ -275,11 +277,13 @@ Outcomes(r, t) ==
              \* a login found in place by a pipelined USER that dropped the login when it started was made by another USER
              \* meanwhile: it is superseded, and it may still have held its slot when this account was looked up
              conc == r.h.u0 = "" /\ r.user # ""
-             with(uu) == IF cand = {} THEN {Out(<<"530">>, r1, uu1, used)}
+             \* a pipelined command still unanswered when USER is answered has not started yet: it will see the new login
+             rc(q) == IF q.h2 = NoH THEN q ELSE [q EXCEPT !.h2.u0 = q.user, !.h2.c0 = q.cwd, !.h2.l0 = q.logged]
+             with(uu) == IF cand = {} THEN {Out(<<"530">>, rc(r1), uu1, used)}
                          ELSE LET u == CHOOSE c \in cand : TRUE IN
-                              IF Locked(uu, u) THEN {Out(<<"530">>, r1, uu1, used)}
+                              IF Locked(uu, u) THEN {Out(<<"530">>, rc(r1), uu1, used)}
                               ELSE LET uu2 == [uu1 EXCEPT ![u] = @ + 1]
-                                       r2 == [r1 EXCEPT !.user = u, !.cwd = UCfg[u].home] IN
+                                       r2 == rc([r1 EXCEPT !.user = u, !.cwd = UCfg[u].home]) IN
                                    IF NeedsPw(u) THEN {Out(<<"331">>, r2, uu2, used)}
                                    ELSE {Out(<<"230">>, [r2 EXCEPT !.logged = TRUE], uu2, used)}
          IN IF conc THEN with(uu1) \cup with(uused) ELSE with(uu1)
